@@ -22,6 +22,8 @@ from 2^63 words on (key C13:len-overflow-2^63; the model's `lenBuiltin` has that
 theorem C13_len_full_fails proves it) and cached queries on an unbound temporary raise
 RuntimeError (key C06:cached-query-on-temporary, owned by C06).
 
+Round 4 (seeded change C13_w4m1): DERIVED-AFTER-QUERY — see the comment above `run_derived`.
+
 Round 3 (seeded changes C13_w3m1 / C13_w3m2): SESSIONS — 4–16 C13 queries asked one after the other of ONE
 live object (count, words, partially consumed words generator, iteration prefix, min/max/empty/finite,
 cardinality/len, random_word, clear_cache, the same queries on `live.copy()`), every enumeration / count
@@ -59,7 +61,12 @@ RULE = ("cases = (valid DFA, query, parameters) with query ∈ {count k, words k
         "enumeration / count asked twice, interleaved) × object built under the default options / under "
         "allow_mutable_automata=True from plain, aliased or copied containers: fixed batteries on a corpus and on all DFAs "
         "with ≤2 states over {a,b}, random sessions on shaped random DFAs, every answer judged against the language of the "
-        "definition as built; a case is "
+        "definition as built; round 4: derivation cases = C13 queries on a source object, THEN a new DFA made from it by a "
+        "library operation (complement with both minify values / ~ / copy / to_complete / to_partial / minify / union, "
+        "intersection, difference, symmetric difference with itself or a second DFA on either side, as methods and "
+        "operators; optionally a second derivation from the first result), then the C13 queries on the DERIVED object(s) "
+        "and on the source again, every answer judged on the definition of the object that was asked (corpus × every "
+        "operation × source queried or not; random sources, half of them complete); a case is "
         "non-trivial when the language is non-empty and the DFA has ≥2 states; distinct = distinct "
         "(definition, query, parameters)")
 ASSUMPTIONS = [
